@@ -13,12 +13,19 @@ pub use serde_json::{json, Value};
 pub fn par_sweep<T: Sync>(ctx: &Ctx, label: &str, cases: &[T], f: impl Fn(&T) + Sync) {
     use rayon::prelude::*;
     let skipped = std::sync::atomic::AtomicU64::new(0);
-    cases.par_iter().for_each(|c| {
+    cases.par_iter().enumerate().for_each(|(i, c)| {
         if ctx.over_budget() {
             skipped.fetch_add(1, std::sync::atomic::Ordering::Relaxed);
             return;
         }
-        f(c)
+        let key = format!("{}#{}", label, i);
+        if let Ok(mut g) = ctx::IN_FLIGHT.lock() {
+            g.insert(key.clone());
+        }
+        f(c);
+        if let Ok(mut g) = ctx::IN_FLIGHT.lock() {
+            g.remove(&key);
+        }
     });
     let s = skipped.load(std::sync::atomic::Ordering::Relaxed);
     if s > 0 {
